@@ -70,7 +70,7 @@ def dm1_scenario(seed, dll, ndtc=None, cycle=None, stop=True):
     fd = dll == "j1939-22"
     nodes = [node("A", [0x10], rng.choice([1, 900]), rng.choice([1, 3])), node("B", [0x20], rng.choice([1, 700]), 1),
              node("C", [0x30], 400, 1)]
-    ncyc = rng.randint(1, 3)
+    ncyc = rng.randint(1, 3)        # different messages in successive cycles
     seq = []
     for c in range(ncyc):
         n = ndtc if ndtc is not None else rng.choice([1, 1, 2, 3, 14, 15, 16, rng.randint(1, 60)])
@@ -89,7 +89,8 @@ def dm1_scenario(seed, dll, ndtc=None, cycle=None, stop=True):
     stop_t = start + cyc * ncalls + cyc // 2 if stop else None
     dur = (cyc * (ncalls + 2) if stop else cyc * ncalls + 100) + need + 500000
     return {"dll": dll, "nodes": nodes, "sends": [], "wrap_send": True, "seed": seed,
-            "dm1": {"sender": {"node": "A", "ca": 0x10, "cycle": cyc, "start": start, "stop": stop_t, "seq": seq},
+            "dm1": {"sender": {"node": "A", "ca": 0x10, "cycle": cyc, "start": start, "stop": stop_t, "seq": seq,
+                               "inplace": rng.random() < 0.4},
                     "receiver": {"node": "B", "ca": 0x20}},
             "dur": dur, "expect": {"all": True, "idle": True, "dm1all": bool(stop)}}
 
